@@ -357,25 +357,33 @@ func checkExpressionAccessor(r *Run, prog *Program, a *Anchors, pfx string) {
 	for _, fa := range prog.FieldAccesses(prog.ModuleFuncs()) {
 		if fa.Struct.Obj() == evT && fa.Field == field && fa.Kind == "write" {
 			n++
-			ok := fa.Fn == a.CreateEv && fa.Val == ssa.Value(a.CreateEv.Params[0])
+			ok := prog.ctorHelper(a, fa.Fn, 0) && prog.originOfParam(fa.Val, 0) == ssa.Value(a.CreateEv.Params[0])
 			r.Check(pfx+".expression", "writer:"+fa.Fn.Name(), prog.pos(fa.Instr.Pos()), ok, "Evaluator."+field+" must be set once, by CreateEvaluator, to its expression parameter itself (byte for byte); stored: "+describeRoot(prog, fa.Val))
 		}
 	}
 	r.Check(pfx+".expression", "writers", prog.pos(a.CreateEv.Pos()), n == 1, fmt.Sprintf("%d writers of Evaluator.%s", n, field))
 	// the string handed to the parser is the same parameter (so what is evaluated is what Expression() reports)
-	for _, b := range a.CreateEv.Blocks {
-		for _, ins := range b.Instrs {
-			if c, ok := ins.(*ssa.Call); ok && c.Call.StaticCallee() == a.Parse {
-				cv, isConv := c.Call.Args[1].(*ssa.Convert)
-				r.Check(pfx+".expression", "parsed-string-is-parameter", prog.pos(c.Pos()), isConv && cv.X == ssa.Value(a.CreateEv.Params[0]), "the bytes parsed are not the expression parameter itself")
+	nParse := 0
+	for _, pf := range prog.ModuleFuncs() {
+		if !prog.ctorHelper(a, pf, 0) || pf == a.CreateFi {
+			continue
+		}
+		for _, b := range pf.Blocks {
+			for _, ins := range b.Instrs {
+				if c, ok := ins.(*ssa.Call); ok && c.Call.StaticCallee() == a.Parse {
+					nParse++
+					cv, isConv := c.Call.Args[1].(*ssa.Convert)
+					r.Check(pfx+".expression", "parsed-string-is-parameter", prog.pos(c.Pos()), isConv && prog.originOfParam(cv.X, 0) == ssa.Value(a.CreateEv.Params[0]), "the bytes parsed are not the expression parameter itself")
+				}
 			}
 		}
 	}
+	r.Check(pfx+".expression", "parse-call", prog.pos(a.CreateEv.Pos()), nParse >= 1, "no call to grammar.Parse found in CreateEvaluator or its helpers")
 	// no Evaluator / Filter field is written outside the constructors
 	for _, fa := range prog.FieldAccesses(prog.ModuleFuncs()) {
 		nm := fa.Struct.Obj().Name()
 		if fa.Struct.Obj().Pkg() != nil && fa.Struct.Obj().Pkg().Path() == modPath && (nm == "Evaluator" || nm == "Filter") && fa.Kind == "write" {
-			ok := fa.Fn == a.CreateEv || fa.Fn == a.CreateFi
+			ok := prog.ctorHelper(a, fa.Fn, 0)
 			r.Check(pfx+".no-carried-state", nm+"."+fa.Field+"@"+fa.Fn.Name(), prog.pos(fa.Instr.Pos()), ok, nm+"."+fa.Field+" is written outside its constructor: the evaluator would carry state between calls")
 		}
 	}
